@@ -9,6 +9,7 @@ import (
 	"fmt"
 	"hash/fnv"
 	"runtime"
+	"strconv"
 	"strings"
 	"time"
 
@@ -65,7 +66,19 @@ func (g *textGen) termText(t Term) []string {
 		return []string{"$" + t.N}
 	case 'i':
 		// base 10 whatever the number of leading zeros (fix "integer literals are base 10")
-		if g.r != nil && g.wild && t.I >= 0 && g.r.Chance(1, 6) {
+		if t.I < 0 {
+			// a sign and digits: one literal wherever a term starts, written with or without a
+			// gap after the sign (fix "negative integer literals")
+			digits := strconv.FormatUint(uint64(-(t.I+1))+1, 10)
+			if g.r != nil && g.wild && g.r.Chance(1, 6) {
+				digits = Pick(g.r, []string{"0", "00"}) + digits
+			}
+			if g.r != nil && g.r.Chance(1, 2) {
+				return []string{"-", digits}
+			}
+			return []string{"-" + digits}
+		}
+		if g.r != nil && g.wild && g.r.Chance(1, 6) {
 			return []string{Pick(g.r, []string{"0", "00", "000"}) + fmt.Sprint(t.I)}
 		}
 		return []string{fmt.Sprint(t.I)}
@@ -219,7 +232,7 @@ func (g *textGen) atomTerm(allowVar bool) Term {
 	case k == 0 && allowVar:
 		return V(Pick(r, pVarNames))
 	case k <= 2:
-		return I(Pick(r, []int64{0, 1, 2, 7, 10, 42, 1234567890123, 9223372036854775807}))
+		return I(Pick(r, []int64{0, 1, 2, 7, 10, 42, 1234567890123, 9223372036854775807, -1, -5, -42, -9223372036854775808}))
 	case k <= 4:
 		return S(Pick(r, pStrings))
 	case k == 5:
